@@ -181,7 +181,8 @@ def gen_specs(ck, n):
         mk = lambda: [rng.choice(pool) for _ in range(rng.randint(1, 3))]
         specs.append(dict(local=[mk() for _ in range(nl)], remote=[mk() for _ in range(nr)],
                           fault=rng.choice(rpcsim.FAULTS), nb=[rng.random() < 0.5 for _ in range(3)],
-                          fault_delay=(rng.choice([0, 0, 1.5, 3.0, 5.5]) if pool is rpcsim.KINDS_TIMEOUT else 0)))
+                          fault_delay=(rng.choice([0, 0, 1.5, 3.0, 5.5]) if pool is rpcsim.KINDS_TIMEOUT else 0),
+                          lines=rng.random() < 0.35))
     return specs
 
 
@@ -195,6 +196,10 @@ def fixed_specs():
                             fault_delay=delay))
         out.append(dict(local=[["ok", "exc"]], remote=[["ok", "badres", "ok"], ["badarg", "ok"]], fault=fault,
                         nb=[True, False, True], fault_delay=0))
+    for fault in ("remove", "stop_server", "remove_then_stop"):
+        for nb in ([False, False, False], [True, False, True]):
+            # line-level switch points inside handle_message / stop / the queue hand-over while the object goes away
+            out.append(dict(local=[["ok", "ok"], ["ok"]], remote=[["ok", "ok"]], fault=fault, nb=nb, fault_delay=0, lines=True))
     for nb in ([False, False, False], [True, True, False]):
         # a value the receiver cannot unpickle: the connection is given up, every pending call must still end
         out.append(dict(local=[["ok"]], remote=[["badload_arg", "ok"], ["ok", "ok"]], fault="none", nb=nb, fault_delay=0))
